@@ -87,6 +87,10 @@ func (p *Program) VerifyFunction(id string) (res *FuncResult) {
 		}
 		fr.freevars = append(fr.freevars, v)
 		_ = i
+		if pt, isPtr := fv.Type().Underlying().(*types.Pointer); isPtr {
+			// in the closure's own contract a captured variable is named like the variable and denotes its value at entry
+			bind[fv.Name()] = e.load(st, &Addr{Kind: aHeap, Ref: v.L[0], Root: pt.Elem(), T: pt.Elem()})
+		}
 	}
 	// references in the initial state predate every local allocation
 	for _, v := range fr.params {
@@ -358,6 +362,23 @@ func (r *FuncResult) finish(e *Engine) {
 	r.CErrors = append(r.CErrors, e.cerrors...)
 }
 
+// isGuardedComp: heap component of a lock-guarded field (may change under other goroutines; callers cannot
+// rely on it without the lock, so it is outside every frame).
+func (p *Program) isGuardedComp(name string) bool {
+	if !strings.HasPrefix(name, "H.") {
+		return false
+	}
+	for id, tc := range p.Contracts.Types {
+		for f := range tc.Guarded {
+			pre := "H." + id + "." + f
+			if name == pre || strings.HasPrefix(name, pre+".") {
+				return true
+			}
+		}
+	}
+	return false
+}
+
 func (p *Program) ifaceType(iid string) types.Type {
 	parts := strings.Split(iid, ".")
 	if len(parts) != 3 {
@@ -439,7 +460,7 @@ func (e *Engine) checkFrameAt(fn *ssa.Function, fc *FuncContract, bind map[strin
 	}
 	sort.Strings(names)
 	for _, name := range names {
-		if covered(name) || name == lockComp || strings.HasPrefix(name, "V.") {
+		if covered(name) || name == lockComp || strings.HasPrefix(name, "V.") || e.P.isGuardedComp(name) {
 			continue
 		}
 		fin := x.st.heap[name]
@@ -466,10 +487,214 @@ func (e *Engine) checkFrameAt(fn *ssa.Function, fc *FuncContract, bind map[strin
 
 // ---------------------------------------------------------------- lock discipline (stubs refined later)
 
+// lockOwner resolves which object a mutex belongs to from the shape of the receiver expression:
+// x.lockField (field of a struct with a type contract) or a package-level mutex.
+type lockOwner struct {
+	tc    *TypeContract
+	typ   types.Type // struct type of the owner (nil for package-level mutexes)
+	obj   Val        // owner object (pointer)
+	field string     // name of the lock field / global
+	pkg   string
+}
+
+func (e *Engine) resolveLockOwner(fr *Frame, st *State, recv ssa.Value) *lockOwner {
+	switch x := recv.(type) {
+	case *ssa.UnOp: // *(&x.lock) : lock stored as pointer field
+		if fa, ok := x.X.(*ssa.FieldAddr); ok {
+			return e.ownerOfFieldAddr(fr, st, fa)
+		}
+	case *ssa.FieldAddr: // &x.lock : lock embedded by value
+		return e.ownerOfFieldAddr(fr, st, x)
+	case *ssa.Global:
+		pkg := x.Pkg.Pkg.Name()
+		if tc := e.P.Contracts.Types[pkg+".globals"]; tc != nil {
+			return &lockOwner{tc: tc, field: x.Name(), pkg: pkg}
+		}
+	}
+	return nil
+}
+
+func (e *Engine) ownerOfFieldAddr(fr *Frame, st *State, fa *ssa.FieldAddr) *lockOwner {
+	pt, ok := fa.X.Type().Underlying().(*types.Pointer)
+	if !ok {
+		return nil
+	}
+	named, ok := pt.Elem().(*types.Named)
+	if !ok {
+		return nil
+	}
+	stt, ok := named.Underlying().(*types.Struct)
+	if !ok {
+		return nil
+	}
+	id := named.Obj().Pkg().Name() + "." + named.Obj().Name()
+	tc := e.P.Contracts.Types[id]
+	if tc == nil {
+		return nil
+	}
+	return &lockOwner{tc: tc, typ: named, obj: e.valueOf(fr, st, fa.X), field: stt.Field(fa.Field).Name(), pkg: named.Obj().Pkg().Name()}
+}
+
+// lock order: a declared total order on lock classes ("Type.field" / "pkg.global"); a goroutine may only
+// acquire a lock whose class is greater than every class it already holds.
+func (e *Engine) lockClass(o *lockOwner) string {
+	if o == nil {
+		return ""
+	}
+	if o.typ != nil {
+		return o.typ.(*types.Named).Obj().Name() + "." + o.field
+	}
+	return o.pkg + "." + o.field
+}
+
 func (e *Engine) lockOrder(st *State, reach Term, m Term, label string) {}
-func (e *Engine) monitorEnter(st *State, reach Term, m Term, write bool) {}
-func (e *Engine) monitorExit(st *State, reach Term, m Term)              {}
-func (e *Engine) lockCheck(st *State, reach Term, a *Addr, write bool)   {}
+
+func (e *Engine) monitorEnter(st *State, reach Term, m Term, write bool) {
+	o := e.curLockOwner
+	if o == nil {
+		return
+	}
+	e.used["monitor discipline: fields guarded by "+e.lockClass(o)+" are arbitrary (subject to the type invariant) whenever the lock is acquired"] = true
+	if o.typ != nil {
+		stt := o.typ.Underlying().(*types.Struct)
+		ref := e.flat(st, reach, o.obj)[0]
+		for i := 0; i < stt.NumFields(); i++ {
+			f := stt.Field(i)
+			if o.tc.Guarded[f.Name()] != o.field {
+				continue
+			}
+			off, n := fieldRange(o.typ, i)
+			root := Layout(o.typ)
+			hv := e.havocVal(reach, "mon."+f.Name(), f.Type())
+			for k := 0; k < n; k++ {
+				lf := root[off+k]
+				name := "H." + typeID(o.typ) + "." + lf.Path
+				arr := st.comp(name, ArraySort(SInt, lf.Sort))
+				st.setComp(name, e.define("h", Store(arr, ref, hv.L[k])))
+			}
+		}
+		for _, inv := range o.tc.Invariants {
+			env := e.newEnv(nil, st)
+			env.bind = map[string]Val{"self": o.obj}
+			env.pkg = o.pkg
+			c, err := env.evalBool(inv.E)
+			if err != nil {
+				e.contractError(inv, err)
+				continue
+			}
+			e.assume(reach, c)
+		}
+	} else {
+		// package-level mutex: guarded package variables become arbitrary
+		for g, lk := range o.tc.Guarded {
+			if lk != o.field {
+				continue
+			}
+			st.havocPrefix([]string{"G." + o.pkg + "." + g + "."}, false)
+		}
+	}
+}
+
+func (e *Engine) monitorExit(st *State, reach Term, m Term) {
+	o := e.curLockOwner
+	if o == nil || o.typ == nil {
+		return
+	}
+	for i, inv := range o.tc.Invariants {
+		env := e.newEnv(nil, st)
+		env.bind = map[string]Val{"self": o.obj}
+		env.pkg = o.pkg
+		c, err := env.evalBool(inv.E)
+		if err != nil {
+			e.contractError(inv, err)
+			continue
+		}
+		lbl := inv.Label
+		if lbl == "" {
+			lbl = fmt.Sprint(i + 1)
+		}
+		e.kindOrd["typeinv."+lbl]++
+		ob := e.oblige("typeinv", fmt.Sprintf("typeinv.%s@unlock#%d", lbl, e.kindOrd["typeinv."+lbl]), "invariant of "+o.tc.ID+" when the lock is released: "+inv.Text, reach, c, inv)
+		if ob != nil {
+			ob.Props = inv.Props
+		}
+	}
+}
+
+// lockCheck: accesses to guarded fields need the guarding lock (read: any mode, write: write mode).
+func (e *Engine) lockCheck(st *State, reach Term, a *Addr, write bool) {
+	if a.Kind != aHeap || !e.lockChecks {
+		return
+	}
+	named, ok := a.Root.(*types.Named)
+	if !ok || named.Obj().Pkg() == nil {
+		return
+	}
+	tc := e.P.Contracts.Types[named.Obj().Pkg().Name()+"."+named.Obj().Name()]
+	if tc == nil {
+		return
+	}
+	stt, ok := named.Underlying().(*types.Struct)
+	if !ok {
+		return
+	}
+	// which field does the offset fall into?
+	fi := -1
+	for i := 0; i < stt.NumFields(); i++ {
+		off, n := fieldRange(named, i)
+		if a.Off >= off && a.Off < off+n {
+			fi = i
+		}
+	}
+	if fi < 0 {
+		return
+	}
+	fname := stt.Field(fi).Name()
+	if a.Site > 0 && !e.reified[a.Site] {
+		return // object under construction, not yet published
+	}
+	what := named.Obj().Name() + "." + fname
+	if lockField, guarded := tc.Guarded[fname]; guarded {
+		// the lock is the value of the owner's lock field (pointer) or its address (embedded)
+		var m Term
+		for i := 0; i < stt.NumFields(); i++ {
+			if stt.Field(i).Name() == lockField {
+				off, _ := fieldRange(named, i)
+				lf := Layout(named)[off]
+				if lf.Kind == kRef {
+					m = Select(st.comp("H."+typeID(named)+"."+lf.Path, ArraySort(SInt, SInt)), a.Ref, SInt)
+				}
+			}
+		}
+		if m.S == "" {
+			return
+		}
+		cur := Select(e.heldArr(st), m, SInt)
+		cond := Bin(SBool, ">=", cur, IntLit(1))
+		mode := "read"
+		if write {
+			cond = Eq(cur, IntLit(2))
+			mode = "write"
+		}
+		key := "lock.held@" + what + "." + mode
+		e.kindOrd[key]++
+		e.oblige("lock.held", fmt.Sprintf("%s#%d", key, e.kindOrd[key]), mode+" of "+what+" without holding "+lockField, reach, cond, nil)
+		return
+	}
+	if tc.Immutable[fname] {
+		if write {
+			key := "lock.immutable@" + what
+			e.kindOrd[key]++
+			e.oblige("lock.held", fmt.Sprintf("%s#%d", key, e.kindOrd[key]), "write to "+what+" which is declared immutable after publication", reach, False, nil)
+		}
+		return
+	}
+	if !e.unclassified[what] {
+		e.unclassified[what] = true
+		e.oblige("lock.held", "lock.unclassified@"+what, "field "+what+" is neither guarded_by a lock nor immutable", reach, False, nil)
+	}
+}
+
 func (e *Engine) lockCheckMap(st *State, reach Term, m ssa.Value, write bool) {}
 
 // ---------------------------------------------------------------- discharge
